@@ -55,7 +55,7 @@ def C(**kw):
 #  The deltas are transcribed from the codemods' documentation (src/core_codemods/docs/*.md), not from their output.
 TABLE = {
     "requests-verify": dict(
-        mod="requests", fn="get", pool=["u, verify=False", "u, verify=False, timeout=3", "u, h(v), verify=False, **k", "*a, verify=False"],
+        mod="requests", fn="get", pool=["u, verify=False", "u, verify=False, timeout=3", "u, h(v, verify=False), verify=False, **k", "*a, verify=False"],
         edits=[("verify=False", "verify=True")], appended=[], added=C(**{"True": 1}), removed=C(**{"False": 1}),
     ),
     "add-requests-timeouts": dict(
@@ -69,7 +69,7 @@ TABLE = {
         appended=["Loader={M}.SafeLoader"], added=C(Loader=1, yaml=2, al=1, SafeLoader=1, **{"import": 1}), removed=C(Loader=1, UnsafeLoader=1),
     ),
     "enable-jinja2-autoescape": dict(
-        mod="jinja2", fn="Environment", pool=["", "loader=l", "loader=l, autoescape=False", "**k"],
+        mod="jinja2", fn="Environment", pool=["", "loader=l", "loader=h(l, autoescape=False), autoescape=False", "**k"],
         edits=[("autoescape=False", "autoescape=True")], appended=["autoescape=True"], added=C(autoescape=1, **{"True": 1}), removed=C(**{"False": 1}),
     ),
     "safe-lxml-parser-defaults": dict(
